@@ -6,7 +6,8 @@ property C13 in `VermouthModel/C13_Reader.lean`, imported read-only) applied to 
 writer model of C02 writes.
 
 C13's model of `_block` / `_parse_block_atom` checks the `[ moleculetype ]` line and the
-`[ atoms ]` rows (`int()`, `float()`, duplicates) but keeps only the node key and `atomname`.
+`[ atoms ]` rows (`int()`, `float()`, duplicates) and keeps `nrexcl`, the node key, `atomname`, `atype`,
+`resname`, `resid`, `charge_group`, `index` (since its round 5) but not `charge`/`mass`.
 `readITPx` is the same pipeline (`classify`, `pragmaPass`, `expandMacros`, `itpRun`, every handler
 of `C13.itpHandle`) on a context that additionally RECORDS the tokens of every atom row and the
 `nrexcl` token; `VermouthProofs/C02_C13Refine.lean` proves that forgetting the record gives back
@@ -106,7 +107,8 @@ def tabOf (keys : List (List String × String × String)) : List Entry :=
 
 def idxOf (raw : List (String × List (Nat × Nat × Nat))) : List (String × List Idx) :=
   raw.map fun (s, l) => (s, l.map fun (k, a, b) =>
-    if k = 0 then Idx.pos a else if k = 1 then Idx.slice a (some b) else Idx.slice a none)
+    if k = 0 then Idx.pos a else if k = 1 then Idx.slice a (some b) else if k = 2 then Idx.slice a none
+    else Idx.bad)
 
 /-! ### the part of the C02 domain the repo's reader can express -/
 
